@@ -222,6 +222,11 @@ pub fn gen(tier: &str, r: &mut Rng) -> Vec<String> {
         head.extend(body);
         out.push(format!("c01 seqres {} {} {}", ["Loose", "Medium", "Strict"][k % 3], if complete { 1 } else { 0 }, enc_bytes((head.join("\n") + "\n").as_bytes())));
     }
+    // ... and documents that walk the SEQRES checks through all of their branches (compared with the model)
+    for k in 0..budget(tier, 60, 3000) {
+        let lines = pdbtext::gen_seqres_doc(r);
+        out.push(format!("c01 seqres {} 0 {}", ["Loose", "Medium", "Strict"][k % 3], enc_bytes((lines.join("\n") + "\n").as_bytes())));
+    }
     // serial numbers wrapping past 99999 (atoms) and 9999 (residues)
     for k in 0..budget(tier, 1, 3) {
         let n_atoms = 100_050 + 7 * k;
